@@ -241,3 +241,11 @@ claim('C07', 'other',
       'tail case table folded over every tail length, byte signedness, finalisation). Value equality of float/datetime arithmetic is not decided',
       'sibling cross-check over Cython parse trees, C token tables and Python ASTs + finite-domain folding',
       _TB + '; Cython.Compiler parser from the repository environment; regular-expression token extraction from cmurmur3.c', 'DESIGN.md section 5 C07')
+
+claim('C08', 'other',
+      'static analysis (narrow): murmur3.py and cmurmur3.c each compared, fact by fact, with a reference table of Cassandra\'s MurmurHash3 x64_128 (constants, rotation '
+      'amounts, block mix, fmix multipliers and logical shifts, multiplication/xor/add sequences, the tail (register, byte, shift) set folded for every tail length 0..15, '
+      'sign-extended tail bytes, seed, finalisation, wrap to signed 64 bits); Murmur3Token normalisation folded over 7 boundary values; MD5Token / BytesToken shape; partitioner table. '
+      'Equality of the hash with Cassandra\'s for all keys is not decided as arithmetic',
+      'table extraction from Python AST and C tokens + comparison with a reference table + finite-domain folding',
+      _TB + '; /verif/spec/murmur3.py written from Cassandra\'s MurmurHash / partitioner sources', 'DESIGN.md section 5 C08')
